@@ -78,6 +78,16 @@ func c20Families() []c20Family {
 		{name: "JSON object nesting, printed and serialised", build: func(n int) (string, string, string) {
 			return `BEGIN { print "before" } BEGINFILE { print $; print json($).length() > 0 }`, strings.Repeat(`{"a":`, n) + "1" + strings.Repeat("}", n), "before\n" + strings.Repeat(`{"a": `, n) + "1" + strings.Repeat("}", n) + "\ntrue\n"
 		}, lo: 1000, hi: 100000, max: 10050, jsonErr: true},
+		// the limit belongs to the input, whatever the program does with it: programs that never look at a record, and a root selector
+		{name: "JSON array nesting under a program of BEGIN rules only", build: func(n int) (string, string, string) {
+			return `BEGIN { print "before" }`, strings.Repeat("[", n) + strings.Repeat("]", n), "before\n"
+		}, lo: 1000, hi: 100000, max: 10050, jsonErr: true},
+		{name: "JSON object nesting under BEGIN and END rules only", build: func(n int) (string, string, string) {
+			return `BEGIN { print "before" } END { print "end" }`, strings.Repeat(`{"a":`, n) + "1" + strings.Repeat("}", n), "before\nend\n"
+		}, lo: 1000, hi: 100000, max: 10050, jsonErr: true},
+		{name: "JSON array nesting under a root selector", build: func(n int) (string, string, string) {
+			return `BEGIN { print "before" } END { print "end" }` + "\x03$.k", `{"k": ` + strings.Repeat("[", n-1) + "1" + strings.Repeat("]", n-1) + "}", "before\nend\n"
+		}, lo: 1000, hi: 100000, max: 10050, jsonErr: true},
 		{name: "JSON object nesting", build: func(n int) (string, string, string) {
 			return `BEGIN { print "before" } BEGINFILE { print "read" }`, strings.Repeat(`{"a":`, n) + "1" + strings.Repeat("}", n), "before\nread\n"
 		}, lo: 1000, hi: 100000, max: 10050, jsonErr: true},
@@ -99,9 +109,16 @@ func c20Exec(prog, input string) (stdout, stderr string, exit int) {
 	dir := filepath.Join(fw.WorkDir(), fmt.Sprintf("c20-%d", os.Getpid()))
 	os.MkdirAll(dir, 0o755)
 	pf, inf := filepath.Join(dir, "p.jqawk"), filepath.Join(dir, "in.json")
-	os.WriteFile(pf, []byte(prog), 0o644)
 	os.WriteFile(inf, []byte(input), 0o644)
-	cmd := exec.Command("/bin/sh", "-c", `ulimit -v 8000000; exec "$0" -f "$1" < "$2"`, fw.JqawkBin(), pf, inf)
+	// root selectors travel behind the program, each after a \x03
+	parts := strings.Split(prog, "\x03")
+	os.WriteFile(pf, []byte(parts[0]), 0o644)
+	script := `ulimit -v 8000000; b="$0"; p="$1"; i="$2"; shift 2; exec "$b" -f "$p" "$@" < "$i"`
+	args := []string{"-c", script, fw.JqawkBin(), pf, inf}
+	for _, sel := range parts[1:] {
+		args = append(args, "-r", sel)
+	}
+	cmd := exec.Command("/bin/sh", args...)
 	// a case normally takes well under a second; two minutes only stop a run whose limit is gone and that would otherwise
 	// go on until memory is exhausted. Expiry is reported as its own class, never silently.
 	so, se, ex, timedOut := runChild(c20Ctx, cmd, "", 120*time.Second)
@@ -283,6 +300,12 @@ func c20Singles() []c20Spec {
 	add(`BEGIN { print "before"; printf("%99999999999999999999s", "x"); print "after" }`, "REFUSED")
 	add(`BEGIN { print "before"; printf("%4000s|%-3000v|", "x", 1); print "" }`, "before\n"+strings.Repeat(" ", 3999)+"x|1"+strings.Repeat(" ", 2999)+"|\n")
 	add(`BEGIN { print "before"; a = []; for (i = 0; i < 1000; i++) a.push(i); print a.length(), a[999]; print r(1000) } function r(n) { if (n <= 0) return 0; return 1 + r(n - 1) }`, "before\n1000 999\n1000\n")
+	// root selectors are evaluated under the same limits: the few frames a selector can open work normally
+	doc := "\x02" + `{"kind": "a", "items": [1, 2]}`
+	add(`{ print "before"; print $ }`+"\x03"+`match ($.kind) { "a" => $.items }`+doc, "before\n1\nbefore\n2\n")
+	add(`{ print "before"; print $ }`+"\x03"+`match ($.kind) { "b" => 0, k => match (k) { "a" => match ($.items) { [x, y] => [y, x] } } }`+doc, "before\n2\nbefore\n1\n")
+	add(`function r(n) { if (n <= 0) return 0; return 1 + r(n - 1) } { print "before"; print r(3000 + $) }`+"\x03"+`match ($.kind) { "a" => $.items }`+doc, "before\n3001\nbefore\n3002\n")
+	add(`{ print "before"; $.deep[1048577] = 1; print "after" }`+"\x03"+`match (1) { 1 => [$] }`+doc, "REFUSED")
 	// a width beyond the maximum in the second / third directive, after directives within it
 	for _, f := range []string{`"%%-8s %%%ds|"`, `"%%3f%%%dv"`, `"%%5s%%-%ds"`, `"%%s %%s %%0%df"`} {
 		for _, w := range []string{"65537", "70000", "99999999999"} {
@@ -349,9 +372,9 @@ func init() {
 	nf := len(c20Families())
 	fw.Register(&fw.Prop{
 		ID: "C20",
-		Rule: "one-dimensional sweeps across each limit on the real binary in a child process under ulimit -v: recursion depth for 13 shapes (inside a right-nested expression, inside literals / loops / conditionals, direct, mutual of two and three, through a match body, an argument, a for-in body, from a pattern rule, from BEGINFILE, entered from inside a match arm, through two nested arms, through block-bodied arms), array store index directly, through a nested pending path and on an array that already has elements, printf width of both signs, JSON array and object nesting (read only, and printed whole + serialised with json()); " +
+		Rule: "one-dimensional sweeps across each limit on the real binary in a child process under ulimit -v: recursion depth for 13 shapes (inside a right-nested expression, inside literals / loops / conditionals, direct, mutual of two and three, through a match body, an argument, a for-in body, from a pattern rule, from BEGINFILE, entered from inside a match arm, through two nested arms, through block-bodied arms), array store index directly, through a nested pending path and on an array that already has elements, printf width of both signs, JSON array and object nesting (read only, printed whole + serialised with json(), under programs of BEGIN / END rules only, under a root selector); " +
 			"the refusal point is found by bisection, must lie in the documented range (a few thousand frames; about a million; exactly 65536; the decoder's limit) and the sweep checks monotonicity: the exact value below it, an ordinary runtime / JSON error with the earlier output kept and a small exit status from it on; " +
-			"plus single cases: index magnitudes 2^k and 2^k +- 1 up to 2^62, 2^63, 2^64, 10^300, reads past the limit, negative and fractional indices, unbounded recursion of four shapes, 20-digit widths, and the things that must still work (a width of a few thousand, a thousand-element array, recursion a thousand deep); states = refusal points found; non-trivial = same",
+			"plus single cases: index magnitudes 2^k and 2^k +- 1 up to 2^62, 2^63, 2^64, 10^300, reads past the limit, negative and fractional indices, unbounded recursion of four shapes, 20-digit widths, and the things that must still work (a width of a few thousand, a thousand-element array, recursion a thousand deep, match expressions nested in root selectors); states = refusal points found; non-trivial = same",
 		Plan: func(t fw.Tier) int { return nf*8 + 1 },
 		Bound: func(t fw.Tier) string {
 			if t == fw.Thorough {
